@@ -42,6 +42,7 @@ type excCase struct {
 	// physical lines; line / actual are the logical line and the content of the logical file it lies in.
 	other                  string
 	mapAt, mapTo, physLine int
+	otherUnreadable        bool // reading y.go fails (generated code whose source is not there); x.go stays readable
 }
 
 func (c excCase) proto() string {
@@ -88,7 +89,7 @@ func excerptImpl(c excCase) (out string) {
 		}
 		return f.Pos(off), true
 	}
-	if c.other != "" {
+	if c.mapAt > 0 {
 		if c.mapAt < 1 || c.mapAt > f.LineCount() {
 			return "skip"
 		}
@@ -123,14 +124,17 @@ func excerptImpl(c excCase) (out string) {
 	pass := &analysis.Pass{
 		Fset: fset,
 		ReadFile: func(name string) ([]byte, error) {
-			if c.unreadable {
-				return nil, fmt.Errorf("unreadable")
-			}
-			if c.other != "" {
+			if c.mapAt > 0 {
 				if name == "y.go" {
+					if c.otherUnreadable {
+						return nil, fmt.Errorf("unreadable")
+					}
 					return []byte(c.other), nil
 				}
 				return []byte(c.claimed), nil
+			}
+			if c.unreadable {
+				return nil, fmt.Errorf("unreadable")
 			}
 			return []byte(c.actual), nil
 		},
@@ -437,6 +441,17 @@ func corrExcerpt(o corrOpts) *res.Summary {
 				c.physLine, c.line, c.actual = plain, plain, c.claimed
 			}
 			cases = append(cases, c)
+			if i%3 == 0 {
+				// the generated part names a file that cannot be read: after a diagnostic in the readable part, every
+				// diagnostic in the generated part comes without excerpt (the first, the second, …)
+				u := excCase{claimed: c.claimed, mapAt: mapAt, mapTo: mapTo, col: 1, code: "IMM01", msg: "gone", tag: "after-failed-read", unreadable: true, otherUnreadable: true}
+				u.prev = [][2]int{{plain, 1}, {mapped, 1}}
+				if i%2 == 0 {
+					u.prev = append(u.prev, [2]int{mapped, 2})
+				}
+				u.physLine, u.line = mapped, mapped-mapAt+mapTo
+				cases = append(cases, u)
+			}
 		}
 		// column 0 (generated code: //line directive without a column)
 		for i := 0; i < 20; i++ {
@@ -555,8 +570,12 @@ func corrExcerpt(o corrOpts) *res.Summary {
 			}
 			input += " prev=" + strings.Join(ps, ",")
 		}
-		if c.other != "" {
-			input += fmt.Sprintf(" twofiles=%s,%s,%d,%d,%d", mdl.Hex(c.claimed), mdl.Hex(c.other), c.mapAt, c.mapTo, c.physLine)
+		if c.mapAt > 0 {
+			o := mdl.Hex(c.other)
+			if c.otherUnreadable {
+				o = "!"
+			}
+			input += fmt.Sprintf(" twofiles=%s,%s,%d,%d,%d", mdl.Hex(c.claimed), o, c.mapAt, c.mapTo, c.physLine)
 		}
 		d := res.Disagreement{Kind: "impl-vs-model", Input: input, Impl: fmt.Sprintf("%q", impl), Model: fmt.Sprintf("%q", model), Clause: "GGV.Model.render"}
 		if strings.HasPrefix(impl, "panic:") {
@@ -589,7 +608,11 @@ func excerptParse(line string) (c excCase, err error) {
 	defer func() {
 		if p := strings.Split(two, ","); len(p) == 5 {
 			c.claimed, _ = mdl.Unhex(p[0])
-			c.other, _ = mdl.Unhex(p[1])
+			if p[1] == "!" {
+				c.otherUnreadable = true
+			} else {
+				c.other, _ = mdl.Unhex(p[1])
+			}
 			c.mapAt, _ = strconv.Atoi(p[2])
 			c.mapTo, _ = strconv.Atoi(p[3])
 			c.physLine, _ = strconv.Atoi(p[4])
